@@ -45,6 +45,7 @@ func init() {
 			{ID: "C18-R24", Title: "symbols are written by the symbol table only", Floor: 1, Run: symbolsAreWrittenByTheSymbolTableOnly},
 			{ID: "C18-R25", Title: "names are read from their storage", Floor: 3, Run: namesAreReadFromTheirStorage},
 			{ID: "C18-R26", Title: "a rollback puts every part back on every path", Floor: 1, Run: aRollbackPutsEveryPartBack},
+			{ID: "C18-R27", Title: "blocks put the enclosing table back in a deferred function", Floor: 1, Run: blocksPutTheEnclosingTableBack},
 		},
 	})
 }
